@@ -3,6 +3,7 @@ unparser, host independence of emission decisions, template floor)."""
 from __future__ import annotations
 
 import ast
+import re
 
 from ..core import AnalysisError, RuleResult
 from ..model import version_test
@@ -10,7 +11,7 @@ from ..reference import asdl
 from ..semwalk import iter_tnodes
 from ..vals import TNode
 from .c03 import _check_pairs, render
-from .common import all_templates, short_ctx
+from .common import all_templates, kinds_label, path_events, short_ctx
 
 EXPLANATION = (
     "Only the part of C15 that is in the shape of the code: C15-R1 the parenthesisation table of "
@@ -284,6 +285,15 @@ def rule_r6(ctx):
     return rr
 
 
+def rule_r7(ctx):
+    """Before Python 3.12 a comprehension is a function of its own; what the converter moves into
+    the element of a comprehension runs in a new frame there (shared rule C12-R7: zero-argument
+    super())."""
+    from .c12 import rule_r7 as r
+
+    return r(ctx)
+
+
 def rule_c06r11(ctx):
     """Hosts before 3.12 give comprehensions symbol tables of their own; how generate_nsp treats them
     (shared rule C06-R11) decides whether such a host converts what a 3.12 host converts."""
@@ -292,4 +302,4 @@ def rule_c06r11(ctx):
     return r(ctx)
 
 
-RULES = [("C15-R1", rule_r1), ("C15-R2", rule_r2), ("C15-R3", rule_r3), ("C15-R4", rule_r4), ("C15-R5", rule_r5), ("C15-R6", rule_r6), ("C06-R11", rule_c06r11)]
+RULES = [("C15-R1", rule_r1), ("C15-R2", rule_r2), ("C15-R3", rule_r3), ("C15-R4", rule_r4), ("C15-R5", rule_r5), ("C15-R6", rule_r6), ("C12-R7", rule_r7), ("C06-R11", rule_c06r11)]
